@@ -3,7 +3,7 @@
 
     Subject.  [all_sites] (Gen/C20Sites.v) is regenerated on every run from the ast of base.py / block.py /
     timeseries.py: for invert_freq, apply_channel_mask, downsample, extract_samps, requantize, remove_zerodm, subband,
-    extract_chans, extract_bands, FilterbankBlock.to_file and TimeSeries.to_tim, the writer calls made on the output
+    extract_chans, extract_bands, FilterbankBlock.to_file, TimeSeries.to_tim and FourierSeries.to_spec, the writer calls made on the output
     before / inside / after the loop over read_plan.  What those calls do to the file object (opener, opening mode,
     write, cwrite, close, prep_outfile) and the arithmetic by which the reader infers the sample count and reads a
     block are regenerated from io/fileio.py, header.py, io/sigproc.py, readers.py and io/bits.py.
@@ -109,11 +109,36 @@ Theorem C20_each_output_opened_once :
 Proof. exact (conj batch_extract_chans batch_extract_bands). Qed.
 Print Assumptions C20_each_output_opened_once.
 
+(** FourierSeries.to_spec (one-shot: prep_outfile, one cwrite of the whole spectrum, __exit__) is one of the regenerated sites, so
+    every theorem above covers it; for its single block [b], whatever the path held before and for all header and block bytes:
+    the path goes old -> empty -> header -> header ++ b, every state from the header write on has nothing pending and is a byte
+    prefix of the final file, nothing changes after the data write, and on return the file is header ++ b *)
+Theorem C20_to_spec_prefix : forall old h b,
+  In site_to_spec all_sites /\
+  map (fun k => disk (at_crash site_to_spec old h [b] k)) [0; 1; 2; 3]%nat = [old; []; h; h ++ b] /\
+  (forall k, (3 <= k)%nat -> disk (at_crash site_to_spec old h [b] k) = h ++ b) /\
+  (forall k, (2 <= k)%nat -> pend (at_crash site_to_spec old h [b] k) = [] /\
+     exists t, h ++ b = disk (at_crash site_to_spec old h [b] k) ++ t) /\
+  disk (on_return site_to_spec old h [b]) = h ++ b /\ pend (on_return site_to_spec old h [b]) = [].
+Proof. exact to_spec_prefix. Qed.
+Print Assumptions C20_to_spec_prefix.
+
 (** * non-vacuity *)
+(** to_spec on a path holding stale bytes, 2-byte header, one block of two complex bins (16 bytes): the states of the path; a cut of
+    the finished file after 11 data bytes reads as 2 floats = the first 8 bytes (a .spec file is 32-bit, 1 channel for the reader) *)
+Example C20_example_to_spec :
+  let b := [1; 2; 3; 4; 5; 6; 7; 8; 9; 10; 11; 12; 13; 14; 15; 16] in
+  map (fun k => disk (at_crash site_to_spec [9; 9; 9] [72; 69] [b] k)) [0; 1; 2; 3; 4; 5]%nat =
+    [[9; 9; 9]; []; [72; 69]; [72; 69] ++ b; [72; 69] ++ b; [72; 69] ++ b] /\
+  on_return site_to_spec [9; 9; 9] [72; 69] [b] = mkof ([72; 69] ++ b) [] 18 false /\
+  open_nsamples (cut [72; 69] b 13) 32 1 = 2 /\
+  read_block_file (cut [72; 69] b 13) 32 1 2 0 2 = OBytes [1; 2; 3; 4; 5; 6; 7; 8].
+Proof. vm_compute. repeat split. Qed.
+
 (** the hypotheses are met: the site list is not empty, and a concrete call (stale content at the path, 2-byte header,
     three blocks one of them empty) goes through the states old / empty / header / header+blocks *)
 Example C20_example_trace :
-  In site_apply_channel_mask all_sites /\ In site_invert_freq all_sites /\ length all_sites = 11%nat /\
+  In site_apply_channel_mask all_sites /\ In site_invert_freq all_sites /\ length all_sites = 12%nat /\
   map (fun k => disk (at_crash site_apply_channel_mask [9; 9; 9; 9; 9; 9; 9; 9; 9] [72; 69] [[1; 2]; []; [3]] k)) [0; 1; 2; 3; 4; 5; 6]%nat =
     [[9; 9; 9; 9; 9; 9; 9; 9; 9]; []; [72; 69]; [72; 69; 1; 2]; [72; 69; 1; 2]; [72; 69; 1; 2; 3]; [72; 69; 1; 2; 3]] /\
   on_return site_invert_freq [9] [72; 69] [[1; 2]; [3]] = mkof [72; 69; 1; 2; 3] [] 5 false /\
